@@ -30,7 +30,7 @@ fn ws_bytes() -> Vec<u8> {
 	(0..n).map(|_| *rt::pick("ws_ch", &[b' ', b'\t', b'\n', b'\r'])).collect()
 }
 
-fn gen_id(pool: &mut Vec<String>, ctr: &mut u64) -> String {
+pub fn gen_id(pool: &mut Vec<String>, ctr: &mut u64) -> String {
 	// unique (within the connection) except null
 	loop {
 		*ctr += 1;
@@ -72,7 +72,7 @@ fn gen_params(nonce: u64) -> Option<String> {
 }
 
 /// One generated message. The expectation is computed afterwards by the classifier, from the bytes alone.
-fn gen_message(pool: &mut Vec<String>, ctr: &mut u64, nonce: u64) -> Vec<u8> {
+pub fn gen_message(pool: &mut Vec<String>, ctr: &mut u64, nonce: u64, for_batch: bool) -> Vec<u8> {
 	let method = |allow_unknown: bool| -> String {
 		let ms: &[&str] = if allow_unknown {
 			&["echo", "echo", "add", "aecho", "aecho", "becho", "bpanic", "fail", "len", "nope", "ec\\u0068o", "e\\\"q", ""]
@@ -119,7 +119,7 @@ fn gen_message(pool: &mut Vec<String>, ctr: &mut u64, nonce: u64) -> Vec<u8> {
 			_ => None,
 		}
 	};
-	let mut body: Vec<u8> = match rt::draw("msg_kind", 20) {
+	let mut body: Vec<u8> = match rt::draw("msg_kind", if for_batch { 17 } else { 20 }) {
 		0..=8 => {
 			let m = method(true);
 			let params = if m == "add" { add_params(nonce) } else { gen_params(nonce) };
@@ -166,6 +166,9 @@ fn gen_message(pool: &mut Vec<String>, ctr: &mut u64, nonce: u64) -> Vec<u8> {
 			}
 		}
 	};
+	if for_batch {
+		return body;
+	}
 	let mut out = ws_bytes();
 	out.append(&mut body);
 	out
@@ -205,7 +208,7 @@ pub async fn scenario() {
 		let mut v = Vec::new();
 		for _ in 0..n {
 			nonce += 1;
-			let bytes = gen_message(&mut pool, &mut ctr, nonce);
+			let bytes = gen_message(&mut pool, &mut ctr, nonce, false);
 			if bytes.iter().find(|b| !matches!(b, b' ' | b'\t' | b'\n' | b'\r')) == Some(&b'[') {
 				continue; // batches belong to C02
 			}
